@@ -54,5 +54,11 @@ func init() {
 			rels = append(rels, strings.TrimPrefix(strings.TrimPrefix(pk.PkgPath, modPath), "/"))
 		}
 		fmt.Println("definitions:", errDiscipline(c, "E1", funcsOfPkgs(c.P, rels...)))
+		c.Rule("E4", "comma-ok (discovery)", 0)
+		for _, fi := range funcsOfPkgs(c.P, rels...) {
+			for k, m := range commaOkSites(c.P, fi) {
+				c.Hold("E4", fi.Pkg.Types.Name()+"."+k, fi.Decl.Pos(), m == "", m)
+			}
+		}
 	})
 }
